@@ -409,7 +409,7 @@ def gen_cg(repo):
     # 2. shape glue, fingerprints (b is rhs as a block, x is x0 (or zeros) as a block)
     glue = ['tstart = time.perf_counter()',
             'if rhs.ndim == 1:\n    b = rhs.reshape((rhs.size, 1))\nelse:\n    b = rhs',
-            'x = np.zeros_like(rhs, dtype=np.result_type(rhs, A)) if x0 is None else x0.copy()',
+            'x = np.zeros_like(rhs, dtype=np.result_type(rhs.dtype, A.dtype)) if x0 is None else x0.copy()',
             'if x.ndim == 1:\n    x = x.reshape((x.size, 1))']
     for g in glue:
         if ast.unparse(body[k]) != norm(g):
